@@ -367,17 +367,49 @@ fn run_case(seed: u64, idx: u64, tier: Tier, out: &mut CaseOut) {
         }
         return;
     }
-    let mut g = TreeGen {
-        rng: &mut rng,
-        tok: Tokens::new(),
-        p,
+    let misnested = rng.chance(1, 8);
+    let input: Vec<u8> = if misnested {
+        // mis-nested formatting elements: the parser's adoption agency moves
+        // nodes around (reparenting), which the DOM sink must mirror exactly
+        out.inc("docs_misnested");
+        let mut tok = Tokens::new();
+        let mut t = |rng: &mut Rng| tok.unique(rng, &p);
+        let f = *rng.pick(&["b", "em", "strong", "i", "a", "code"]);
+        let f2 = *rng.pick(&["em", "i", "s", "b"]);
+        let blk = *rng.pick(&["p", "div", "blockquote"]);
+        let c = |rng: &mut Rng| *rng.pick(&CLASSES);
+        match rng.below(4) {
+            0 => format!(
+                "<div class=\"{}\">{} <{f} class=\"{}\">{} <{blk} class=\"{}\">{} <span class=\"{}\">{}</span></{f}> {} <em>{}</em></{blk}></div>",
+                c(&mut rng), t(&mut rng), c(&mut rng), t(&mut rng), c(&mut rng), t(&mut rng), c(&mut rng), t(&mut rng), t(&mut rng), t(&mut rng)
+            ),
+            1 => format!(
+                "<p class=\"{}\">{} <{f} id=\"{}\">{} <{f2} class=\"{}\">{}</{f}> {}</{f2}> {}</p><p>{}</p>",
+                c(&mut rng), t(&mut rng), rng.pick(&IDS), t(&mut rng), c(&mut rng), t(&mut rng), t(&mut rng), t(&mut rng), t(&mut rng)
+            ),
+            2 => format!(
+                "<{f} class=\"{}\">{}<div class=\"{}\">{}<span class=\"{}\">{}</span><ul><li class=\"{}\">{}</li><li>{}</li></ul></{f}>{}</div>",
+                c(&mut rng), t(&mut rng), c(&mut rng), t(&mut rng), c(&mut rng), t(&mut rng), c(&mut rng), t(&mut rng), t(&mut rng), t(&mut rng)
+            ),
+            _ => format!(
+                "<div>{}<{f} class=\"{}\"><{f2}>{}<p class=\"{}\">{}<span>{}</span></{f}>{}</p>{}</{f2}></div>",
+                t(&mut rng), c(&mut rng), t(&mut rng), c(&mut rng), t(&mut rng), t(&mut rng), t(&mut rng), t(&mut rng)
+            ),
+        }
+        .into_bytes()
+    } else {
+        let mut g = TreeGen {
+            rng: &mut rng,
+            tok: Tokens::new(),
+            p: p.clone(),
+        };
+        let nb = g.rng.range(1, 3);
+        let doc: Vec<Node> = (0..nb).map(|_| g.block(0)).collect();
+        ast::serialize(&doc, &mut Fmt::canonical())
     };
-    let nb = g.rng.range(1, 3);
-    let doc: Vec<Node> = (0..nb).map(|_| g.block(0)).collect();
-    let input = ast::serialize(&doc, &mut Fmt::canonical());
     let dom = odom::parse(&input);
     let vocab = Vocab {
-        tags: ["div", "p", "span", "em", "li", "ul", "strong", "blockquote", "a", "code", "body"]
+        tags: ["div", "p", "span", "em", "li", "ul", "strong", "blockquote", "a", "code", "body", "b", "i"]
             .iter()
             .map(|s| s.to_string())
             .collect(),
